@@ -1,6 +1,7 @@
 package main
 
 import (
+	"os"
 	"fmt"
 	"go/token"
 	"go/types"
@@ -1335,6 +1336,22 @@ func fF4(p *Prog, o *obls, fn *ssa.Function) {
 				return ""
 			}
 			if ctor {
+				// the error is thrown away altogether: whatever is done with the object rests on the belief that the
+				// call cannot fail
+				discarded := errV == nil
+				if errV != nil {
+					discarded = true
+					if rs := errV.Referrers(); rs != nil {
+						for _, r := range *rs {
+							if _, isDbg := r.(*ssa.DebugRef); !isDbg {
+								discarded = false
+							}
+						}
+					}
+				}
+				if discarded {
+					return beliefBacked(p, fn, call, user)
+				}
 				// only uses that dereference the object (or hand it, without its error, to code that may) matter:
 				// storing a nil pointer, boxing it, merging it or returning it is harmless
 				res := ssa.Value(extractN(call, 0))
@@ -1379,12 +1396,12 @@ func fF4(p *Prog, o *obls, fn *ssa.Function) {
 					}
 				}
 				if !used {
-					return ""
+					return beliefBacked(p, fn, call, user)
 				}
 			}
 			if errV == nil {
 				if ctor {
-					return "" // `x, _ := newX(size)` states a belief (the size was validated at construction): not decided
+					return beliefBacked(p, fn, call, user)
 				}
 				return fmt.Sprintf("%s used at %s although the parse error is discarded", what, p.instrPos(user))
 			}
@@ -1869,4 +1886,103 @@ func (p *Prog) constInClass(v ssa.Value, class []condFact, depth int) (int64, bo
 		return val, have
 	}
 	return 0, false
+}
+
+
+// beliefBacked: `x, _ := newX(o.size)` discards the constructor's error under the belief that the argument was
+// validated when the object o was built. The belief is backed when every argument of the call is a constant or a
+// field of the receiver, and every function that builds an object of the receiver's type calls the same constructor on
+// the same fields of the object it builds and returns when that call fails. Returns "" when backed, else the witness.
+func beliefBacked(p *Prog, fn *ssa.Function, call *ssa.Call, user ssa.Instruction) string {
+	sc := call.Call.StaticCallee()
+	top := fn
+	for top.Parent() != nil {
+		top = top.Parent()
+	}
+	if sc == nil || top.Signature.Recv() == nil || len(fn.Params) == 0 && fn.Parent() == nil {
+		return "" // not the receiver-field form: not decided
+	}
+	recvT := namedOf(deref(top.Signature.Recv().Type()))
+	if recvT == nil {
+		return ""
+	}
+	// the fields the arguments are loaded from
+	var fields []*types.Var
+	for _, a := range call.Call.Args {
+		if _, isC := p.origin(a).(*ssa.Const); isC {
+			fields = append(fields, nil)
+			continue
+		}
+		u, ok := p.origin(a).(*ssa.UnOp)
+		if !ok || u.Op != token.MUL {
+			return ""
+		}
+		fa, ok := u.X.(*ssa.FieldAddr)
+		if !ok || namedOf(deref(fa.X.Type())) == nil || namedOf(deref(fa.X.Type())).Obj() != recvT.Obj() {
+			return ""
+		}
+		fields = append(fields, fieldOfAddr(fa))
+	}
+	// builders of the receiver type
+	nBuilders, backed := 0, 0
+	for _, g := range p.Funcs {
+		var built *ssa.Alloc
+		instrsOf(g, func(in ssa.Instruction) {
+			if al, ok := in.(*ssa.Alloc); ok && al.Heap {
+				if n, isN := types.Unalias(deref(al.Type())).(*types.Named); isN && n.Obj() == recvT.Obj() {
+					built = al
+				}
+			}
+		})
+		if built == nil {
+			continue
+		}
+		nBuilders++
+		if os.Getenv("IV_DEBUG") != "" {
+			fmt.Fprintln(os.Stderr, "builder", funcKey(g), "of", recvT.Obj().Name())
+		}
+		ok := false
+		instrsOf(g, func(in ssa.Instruction) {
+			c2, isCall := in.(*ssa.Call)
+			if !isCall || c2.Call.StaticCallee() != sc || len(c2.Call.Args) != len(fields) {
+				return
+			}
+			for i, a := range c2.Call.Args {
+				if fields[i] == nil {
+					continue
+				}
+				u, isU := p.origin(a).(*ssa.UnOp)
+				if !isU || u.Op != token.MUL {
+					return
+				}
+				fa, isFA := u.X.(*ssa.FieldAddr)
+				if !isFA || fieldOfAddr(fa) != fields[i] || cellAddr(addrRoot(fa)) != ssa.Value(built) && p.origin(addrRoot(fa)) != ssa.Value(built) {
+					return
+				}
+			}
+			// its error is tested and the failing branch returns a non-nil error
+			fe := errExtract(c2)
+			if fe == nil || fe.Referrers() == nil {
+				return
+			}
+			for _, b := range g.Blocks {
+				ret, isRet := b.Instrs[len(b.Instrs)-1].(*ssa.Return)
+				if !isRet || len(ret.Results) == 0 {
+					continue
+				}
+				if p.nilnessAt(fe, b) == 1 {
+					if cst, isC := returnedValue(ret, len(ret.Results)-1).(*ssa.Const); !isC || !cst.IsNil() {
+						ok = true
+					}
+				}
+			}
+		})
+		if ok {
+			backed++
+		}
+	}
+	if nBuilders > 0 && backed == nBuilders {
+		return ""
+	}
+	return fmt.Sprintf("the object is used at %s although the constructor's error is discarded, and the function that builds a %s does not call %s on the same field(s) and fail when it fails: an argument the constructor rejects (it then returns nil) reaches this use", p.instrPos(user), recvT.Obj().Name(), sc.Name())
 }
